@@ -37,12 +37,42 @@ def _payload(seed, n):
     return bytes(out[:n])
 
 
+class Pat:
+    """a payload far beyond the buffering limit: the 64 KiB block payload(seed, 65536) repeated up to n bytes; never
+    materialised (the harness writes it block by block, see c04Frame.Pat); supports len, prefixes and md5"""
+
+    def __init__(self, seed, n):
+        self.seed, self.n, self.block, self._md5 = seed, n, _payload(seed, 65536), None
+
+    def __len__(self):
+        return self.n
+
+    def __getitem__(self, sl):
+        stop = self.n if sl.stop is None else min(sl.stop, self.n)
+        if stop >= self.n:
+            return self
+        assert stop <= 1 << 22, "only short prefixes of a patterned payload are materialised"
+        return (self.block * (stop // 65536 + 1))[:stop]
+
+    def md5hex(self):
+        if self._md5 is None:
+            h = hashlib.md5()
+            full, rest = divmod(self.n, 65536)
+            big = self.block * 64
+            while full >= 64:
+                h.update(big)
+                full -= 64
+            h.update(self.block * full + self.block[:rest])
+            self._md5 = h.hexdigest()
+        return self._md5
+
+
 def enc_frame(rsv, ver, typ, mid, pl):
     return struct.pack(">BBII", rsv << 5 | ver << 2 | typ >> 8, typ & 255, len(pl) + 10, mid) + pl
 
 
 def md5(b):
-    return hashlib.md5(b).hexdigest()
+    return b.md5hex() if isinstance(b, Pat) else hashlib.md5(b).hexdigest()
 
 
 # ------------------------------------------------------------------ scenarios
@@ -54,11 +84,11 @@ _pk = [0]
 MODES = ["data", "unmarshal", "readall", "copy", "close"]     # + "" = io.ReadFull of k bytes
 
 
-def frame(typ, plen, k=0, panic=False, mid=None, reply_to=None, rsv=0, ver=1, pseed=0, pkind=None, mode=""):
+def frame(typ, plen, k=0, panic=False, mid=None, reply_to=None, rsv=0, ver=1, pseed=0, pkind=None, mode="", pat=False):
     # what the consumption path reads of an n-byte payload, for the model and the predicate
     if mode in ("data", "unmarshal"):
         k = plen if plen <= LIMIT else 0        # Message.data refuses to buffer more than the limit
-    elif mode in ("readall", "copy"):
+    elif mode in ("readall", "copy", "hash"):
         k = plen
     elif mode == "close":
         k = 0
@@ -66,7 +96,7 @@ def frame(typ, plen, k=0, panic=False, mid=None, reply_to=None, rsv=0, ver=1, ps
         pkind = PKINDS[_pk[0] % len(PKINDS)]
         _pk[0] += 1
     return dict(rsv=rsv, ver=ver, typ=typ, id=mid or 0, reply_to=reply_to, plen=plen, pseed=pseed, k=k, panic=panic,
-                pkind=pkind or "", mode=mode)
+                pkind=pkind or "", mode=mode, **({"pat": True} if pat else {}))
 
 
 def ks(n):
@@ -191,6 +221,67 @@ def oversize_awaited_scenarios(rnd, thorough):
                           frame(T_U, 2, 1, mid=0xFFFC0000 + vi)]
                 b.chunk(frames, ["whole", "rand", "fixed", "rand"][vi], segseed=n + vi, segmax=[0, 70000, 1460, 9000][vi])
             out.append(b.sc)
+    return out
+
+
+def huge_scenarios(rnd, thorough):
+    """'payload sizes from 0 to BEYOND the buffering limit' has no upper end short of the 32-bit length field: messages of
+    1 MiB .. 64 MiB (thorough: 256 MiB) + a few bytes, really sent, on every dispatch path — streamed whole through a type
+    handler / the default handler (hashing it), a handler that reads a little or nothing (drain), nobody entitled
+    (discard), awaited (header-only delivery + handler) — each followed by an ordinary frame that must be parsed in place
+    and delivered. Payload = a 64 KiB block repeated (written block by block; the handler hashes as it reads).  Judged by
+    the property predicate only: the theorems hold for every size, but the extracted model works on byte LISTS and is not
+    run on streams of this size."""
+    out = []
+    sizes = [1 << 20, 1 << 22, 1 << 24, 1 << 26] + ([1 << 28] if thorough else [])
+    for cname, hs, df in (("type-handler", [T_H], False), ("default-handler", [], True)):
+        for n0 in sizes:
+            n = n0 + 1 + rnd.randrange(4096)
+            b = Builder("huge/%s/%d" % (cname, n), hs, df)
+            b.sc.update(step_ms=60000, pred_only=True)
+            j = b.send(VIAS[len(out) % len(VIAS)], T_H)
+            frames = [frame(T_H, n, mode="hash", mid=0xFFFA0001, pat=True),
+                      frame(T_U, 5, 2, mid=0xFFFA0002),
+                      frame(T_U, n, rnd.choice([0, 1, 4097]), mid=0xFFFA0003, pat=True),        # drained (default handler) or discarded (nobody)
+                      frame(T_H, 3, 3, mid=0xFFFA0004)]
+            if n0 <= 1 << 24 or thorough:
+                frames += [frame(T_H, n, mode="hash", reply_to=j, pat=True),                     # awaited: header-only + streamed to the handler
+                           frame(T_U, 1, 1, mid=0xFFFA0005)]
+            else:
+                frames += [frame(T_H, 7, 7, reply_to=j)]
+            b.chunk(frames)
+            out.append(b.sc)
+    return out
+
+
+def same_id_scenarios(rnd, thorough):
+    """a request is outstanding; the reader emits reader-initiated messages (KeepAlive, ROAccessReport,
+    ReaderEventNotification) that happen to carry the SAME message id (both sides number their messages from small
+    integers), then the real reply: the reader-initiated ones go to their handlers, the real reply — and nothing else —
+    to the caller, each exactly once with exactly its bytes; on every handler configuration and through every API."""
+    out = []
+    cfgs = [("nobody", [], False), ("type-handlers", [61, 63, T_H], False), ("default", [], True), ("report-handler", [61], True)]
+    for cname, hs, df in cfgs:
+        b = Builder("same-id/%s" % cname, hs, df)
+        vi = 0
+        for t in READER_INITIATED:
+            for pattern in ("one", "two", "mixed") if thorough else ("one", "mixed" if t == 61 else "two"):
+                via = VIAS[vi % len(VIAS)]
+                vi += 1
+                j = b.send(via, T_H)
+                n = rnd.choice([0, 1, 7, 40, 300])
+                pre = {"one": [t], "two": [t, t], "mixed": [t] + [x for x in READER_INITIATED if x != t]}[pattern]
+                frames = [frame(x, 0 if x == 62 else rnd.choice([0, 3, 33]), rnd.choice([0, 2, 40]), reply_to=j) for x in pre]
+                frames.append(frame(T_H, n, n // 2, reply_to=j))
+                frames.append(frame(T_U, 2, 1, mid=0xFFFB0000 + vi))
+                b.chunk(frames, rnd.choice(["whole", "byte", "rand"]), segseed=vi, segmax=11)
+        out.append(b.sc)
+    # ... and with the limit-sized real reply behind a same-id report
+    b = Builder("same-id/limit", [61], False)
+    b.sc["step_ms"] = 15000
+    j = b.send("message", T_H)
+    b.chunk([frame(61, 20, 20, reply_to=j), frame(T_H, LIMIT, 0, reply_to=j), frame(T_U, 1, 0, mid=5)], "rand", segseed=5, segmax=70000)
+    out.append(b.sc)
     return out
 
 
@@ -409,7 +500,7 @@ def closeresp_scenarios():
 
 
 # ------------------------------------------------------------------ the script as the model sees it
-def flatten(sc):
+def flatten(sc, want_stream=False):
     """-> (frames with concrete ids/payload and registrations, tail bytes, stream bytes)"""
     reg, frames, tail = [], [], b""
     req_id = {}
@@ -422,22 +513,26 @@ def flatten(sc):
         elif st["op"] == "chunk":
             for f in st["frames"]:
                 mid = req_id[f["reply_to"]] if f["reply_to"] is not None else f["id"]
-                pl = payload(f["pseed"], f["plen"])
+                pl = Pat(f["pseed"], f["plen"]) if f.get("pat") else payload(f["pseed"], f["plen"])
                 frames.append(dict(f, id=mid, payload=pl, register=reg))
                 reg = []
         elif st["op"] == "raw":
             tail += bytes.fromhex(st["raw"])
-    stream = b"".join(enc_frame(f["rsv"], f["ver"], f["typ"], f["id"], f["payload"]) for f in frames) + tail
+    stream = None if sc.get("pred_only") or not want_stream else \
+        b"".join(enc_frame(f["rsv"], f["ver"], f["typ"], f["id"], f["payload"]) for f in frames) + tail
     return frames, tail, stream, req_id, reg
 
 
-NEVER_REPLY = []          # types the code never treats as replies; probed in run()
+NEVER_REPLY = []          # types this tree never treats as replies; probed in run(), REPORTED only: what the model and the
+                          # predicate use is READER_INITIATED — the exempt set is judged against the property, not adopted
 CLOSE_PARKS = [False]     # does an unsolicited CloseConnectionResponse park the read loop at EOF? probed in run()
 READER_INITIATED = (61, 62, 63)
 
 
 def oracle_request(sc):
-    frames, tail, stream, _, lastreg = flatten(sc)
+    if sc.get("pred_only"):
+        return "run %d - 0 - - - -" % LIMIT       # not run through the extracted model (see huge_scenarios)
+    frames, tail, stream, _, lastreg = flatten(sc, True)
     hs = sorted(set(sc["handlers"] + ([62] if sc["keep_ack"] else [])))
     env = ["%s/%s/%d" % (",".join(map(str, f["register"])) or "-",
                          PK_MODEL.get(f.get("pkind") or "string", "pr") if f["panic"] else "r", f["k"]) for f in frames]
@@ -446,7 +541,7 @@ def oracle_request(sc):
     if CLOSE_PARKS[0]:        # tree without fix ea578f8: as if CloseConnection had always been sent
         env = [e + "/1" for e in env]
     return "run %d %s %d %s - %s %s" % (LIMIT, ",".join(map(str, hs)) or "-", 1 if sc["default"] else 0,
-                                        ",".join(map(str, NEVER_REPLY)) or "-", ";".join(env), stream.hex() or "-")
+                                        ",".join(map(str, READER_INITIATED)), ";".join(env), stream.hex() or "-")
 
 
 def parse_oracle(line):
@@ -594,21 +689,17 @@ def property_check(sc, go):
     fails = []
     recs = go["records"][1:]
     callers = {c["req_id"]: c for c in go["callers"]}
-    aw, maybe = set(), set()
+    aw = set()
     prev_path = "start"
     for i, f in enumerate(frames):
         aw |= set(f["register"])
-        # Is the caller awaiting this id entitled?  For the reader-initiated types (KeepAlive,
-        # ROAccessReport, ReaderEventNotification) that is C03's question (F2 and its fix), not
-        # C04's: the caller side is not judged for such a frame, nor for a later frame with the
-        # same id (the entry may or may not have been used up).
+        # KeepAlive, ROAccessReport and ReaderEventNotification are reader-initiated: never the reply to anything, whatever
+        # id they carry.  Such a frame is delivered to its handler only; the caller awaiting that id stays entitled to the
+        # REAL reply (a later frame of a reply type with its id), which must reach it exactly once with exactly its bytes.
+        # (Whether the caller is wrongly handed the reader-initiated frame itself is C03's clause; here it shows up as the
+        # caller not having the real reply.)
         judged = True
         if f["id"] in aw and f["typ"] in READER_INITIATED:
-            aw.discard(f["id"])
-            maybe.add(f["id"])
-            awaited, judged = f["typ"] not in NEVER_REPLY, False
-        elif f["id"] in maybe:
-            maybe.discard(f["id"])
             awaited, judged = False, False
         else:
             awaited = f["id"] in aw
@@ -688,6 +779,21 @@ def property_check(sc, go):
     for rid, c in callers.items():
         if c["err"] == "nil" and rid not in used:
             fails.append(("reply-from-nowhere", "caller with request id %d got a reply though no frame carried that id: %s" % (rid, c)))
+        elif handed_success(c):
+            # whatever a caller is handed as a success must be a message the reader sent COMPLETELY under that id
+            same = [f for f in frames if f["id"] == rid]
+            if not any(c["hdr"][1] == f["typ"] and c["dlen"] == f["plen"] and c["md5"] == md5(f["payload"]) for f in same):
+                cut = len(tail) >= 10 and struct.unpack(">I", tail[6:10])[0] == rid
+                if cut and not same:
+                    claimed = struct.unpack(">I", tail[2:6])[0] - 10
+                    fails.append(("caller-handed-phantom-reply:stream-ended-inside-reply",
+                                  "the reader's reply to request id %d announced %d payload bytes and the stream ended after %d of them; the "
+                                  "awaiting caller (API: %s) was handed a SUCCESS: reply type %d, header %s, %d bytes — a message the reader "
+                                  "never sent" % (rid, claimed, len(tail) - 10, c.get("via") or "send+data", c["hdr"][1], c["hdr"], c["dlen"])))
+                elif not any(sig.startswith(("caller-wrong-reply", "caller-handed-wrong-bytes")) for sig, _ in fails):
+                    fails.append(("caller-handed-phantom-reply", "caller with request id %d was handed a success (type %d, %d bytes, md5 %s) "
+                                  "that is none of the complete frames the reader sent under that id: %s"
+                                  % (rid, c["hdr"][1], c["dlen"], c["md5"], [(f["typ"], f["plen"]) for f in same])))
     return fails
 
 
@@ -755,6 +861,8 @@ def run(tier, seed, replay=None):
                 scs += json.load(open(os.path.join(vlib.ROOT, "corpus", n))).get("scenarios", [])
         scs += tail_scenarios() + consume_scenarios(random.Random(seed + 5), thorough) + matrix_scenarios(thorough) + limit_scenarios(thorough)
         scs += oversize_awaited_scenarios(random.Random(seed + 23), thorough)
+        scs += same_id_scenarios(random.Random(seed + 29), thorough)
+        scs += huge_scenarios(random.Random(seed + 31), thorough)
         scs += random_scenarios(rnd, 1500 if thorough else 150)
 
     # which types does the code exempt from the awaiting lookup?  (none before the C03/F2 fix)
@@ -833,7 +941,7 @@ def run(tier, seed, replay=None):
         aw = set()
         for f in frames:
             aw |= set(f["register"])
-            a = f["id"] in aw and f["typ"] not in NEVER_REPLY
+            a = f["id"] in aw and f["typ"] not in READER_INITIATED
             if a:
                 aw.discard(f["id"])
             nontriv.add((path_of(sc, f, a), min(f["plen"], 70) if f["plen"] < LIMIT - 1 else f["plen"],
@@ -841,7 +949,7 @@ def run(tier, seed, replay=None):
                          (f.get("pkind") or "string") if f["panic"] else "", f.get("mode") or "readfull",
                          next(st["seg"] for st in sc["steps"] if st["op"] == "chunk")))
         fails = property_check(sc, go)
-        diffs = compare(sc, go, model)
+        diffs = [] if sc.get("pred_only") else compare(sc, go, model)
         slow.append((go.get("ms", 0), sc["name"]))
         if len(samples) < 4 and fam in ("tail", "random") and len(frames) <= 4:
             samples.append(dict(scenario=sc, go=go, model=olines[i][:600]))
